@@ -1,4 +1,4 @@
-From Verif Require Import Codec TxReaders.
+From Verif Require Import Codec TxStream.
 Require Extraction. Require Import ExtrOcamlBasic.
 Extraction Language OCaml.
 Extraction "model.ml" all_bytes run_line.
